@@ -3,7 +3,7 @@ CONSTANTS
   MaxReqs = 6
   MaxResp = 6
   ReqHdrNames = {"none", "plain", "rep", "mixed", "bin", "multi"}
-  HdrNames = {"none", "plain", "rep", "mixed", "bin", "multi"}
+  HdrNames = {"none", "plain", "rep", "mixed", "bin", "multi", "shared"}
   ErrNames = {"none", "code", "msg", "full"}
   DataVariants = {"plain", "e1", "eL"}
   Decoys = {"none", "def", "flag", "both"}
